@@ -1,16 +1,86 @@
-//! Suite C07 (stub — replaced when the property's harness is built).
+//! Suite C07: frames that are not accepted change nothing (twin runs).
 #![allow(dead_code, unused_imports)]
+use crate::mac::*;
+use crate::macgen::*;
+use crate::macsuites::*;
 use crate::util::*;
 
-pub fn eval(_op: &str) -> String {
-    "bad-op".into()
+pub fn eval(op: &str) -> String {
+    eval_c07(op)
 }
 
 pub fn expand(_op: &str) -> Vec<String> {
     vec![]
 }
 
-pub fn run(_tier: &str, _seed: u64, dir: &str) {
-    let sink = Sink::new(dir);
-    sink.finish(dir, "stub", false, serde_json::json!({}));
+/// generate a history live, then star every frame the device answered with `NoUpdate`
+fn starred_history(rng: &mut Rng, region: &str, o: &Opts) -> String {
+    let op = gen_history("C07", rng, region, o);
+    let outs = run_history(&op);
+    let (hd, evs) = split_events(&op);
+    let mut line = hd;
+    for (i, e) in evs.iter().enumerate() {
+        line.push_str(" ; ");
+        let is_rx = e.starts_with("rx1") || e.starts_with("rx2") || e.starts_with("rxc");
+        // "rejected" is decided from the reference view, never from the implementation's answer:
+        // garbage, a data frame whose MIC verifies under no counter, or a JoinAccept with bad MIC
+        let rejected_by_view = {
+            let w: Vec<&str> = e.split_whitespace().collect();
+            is_rx && (w.get(3) == Some(&"g") || (w.get(3) == Some(&"d") && w.get(7) == Some(&"-")))
+        };
+        let _ = &outs;
+        let _ = i;
+        if rejected_by_view && !oversize(e) {
+            line.push('*');
+        }
+        line.push_str(e);
+    }
+    line
+}
+
+/// frames longer than the smallest regional limit may legitimately end the receive procedure
+fn oversize(e: &str) -> bool {
+    let w: Vec<&str> = e.split_whitespace().collect();
+    w.get(3) == Some(&"d") && w.get(4).and_then(|x| x.parse::<u32>().ok()).unwrap_or(0) > 19 + 5
+}
+
+pub fn run(tier: &str, seed: u64, dir: &str) {
+    let mut rng = Rng::new(seed);
+    let mut sink = Sink::new(dir);
+    let thorough = tier == "thorough";
+    let per_region = if thorough { 3000 } else { 170 };
+    for region in REGIONS {
+        for i in 0..per_region {
+            let mut o = Opts::default();
+            o.steps = 5 + rng.below(10) as usize;
+            o.otaa_pct = 25;
+            o.snaps = i % 2 == 0;
+            let op = starred_history(&mut rng, region, &o);
+            let stars = op.matches("; *").count();
+            sink.case(&op, &eval(&op), if stars > 0 { "with-rejected-frames" } else { "no-rejected-frame" }, stars > 0);
+        }
+        // pending sticky answers + forged frame (the former defect): RXTimingSetupAns must survive
+        for k in 0..(if thorough { 60 } else { 8 }) {
+            let mut h = Hist::new("C07", region, 20, 0, rng.next() & 0xffff, &[], None);
+            h.go_live();
+            h.abp().send(1, false, &[1]).rx_auth("rx1", 0, 1, false, &rx_timing_setup_req(3 + k as u8 % 5), None, &[]).snap().send(1, false, &[2]);
+            let (b, hint, _) = rejected_frame(&mut rng, &h);
+            h.rx_bytes("rx1", 0, &b, hint);
+            h.timeout().snap().send(1, false, &[3]).timeout().snap();
+            let op = h.done();
+            // star the rejected frame if the reference view says so
+            let (hd, evs) = split_events(&op);
+            let mut line = hd;
+            for e in evs {
+                line.push_str(" ; ");
+                let w: Vec<&str> = e.split_whitespace().collect();
+                if (e.starts_with("rx1")) && (w.get(3) == Some(&"g") || (w.get(3) == Some(&"d") && w.get(7) == Some(&"-"))) && !oversize(&e) {
+                    line.push('*');
+                }
+                line.push_str(&e);
+            }
+            sink.case(&line, &eval(&line), "sticky-answer-vs-forged-frame", true);
+        }
+    }
+    sink.finish(dir, "twin runs: each history is executed twice on the real Mac, once with and once without the frames marked `*` (frames the REFERENCE view rejects: unparseable bytes, data frames whose MIC verifies under no counter incl. bit-flips and other-session frames, wrong-key JoinAccepts; oversized ones are left unstarred); every unstarred event must produce identical output (uplink bytes as decoded, TxConfig, windows, responses, snapshots) and every starred one `NoUpdate`. Non-trivial = histories containing at least one starred frame.", false, serde_json::json!({}));
 }
